@@ -1,5 +1,5 @@
 """FuncLowerer: one instantiated C++ function (clang JSON AST) -> one C function."""
-import re
+import re, os
 from cxx2c import (Abort, abort, parse_type, norm_name, sanitize, MEMORY_ORDER, FUNC_KINDS, RECORD_KINDS,
                    OPERATOR_NAMES)
 
@@ -354,6 +354,8 @@ class FuncLowerer:
                 clsname = u.qualname(cls)
                 if bt[1] == clsname:
                     target = '(*self)'
+                elif (u.records.get(bt[1]) or u.records.get(u._fuzzy_record(bt[1]) or '') or {}).get('definitionData', {}).get('isEmpty'):
+                    target = '(*(%s)self)' % u.ctype(('ptr', bt))     # empty base: same address, no member
                 else:
                     target = 'self->__base_' + sanitize(bt[1].split('::')[-1])
                 out += self.init_object(target, bt, inner[0], 1)
@@ -1243,7 +1245,7 @@ class FuncLowerer:
                 nm = '__base_' + sanitize(norm_name(step['name']).split('::')[-1])
                 if cur[0] == 'rec':
                     u.need_struct(cur[1])
-                    drec0 = u.records.get(cur[1])
+                    drec0 = u.records.get(cur[1]) or u.records.get(u._fuzzy_record(cur[1]) or '')
                     if drec0 is not None:
                         # the path names a class template base without its arguments: take the field name of the unique matching base
                         cands = []
@@ -1251,11 +1253,27 @@ class FuncLowerer:
                             bt = u.resolve(parse_type(b['type'].get('desugaredQualType') or b['type']['qualType']))
                             if bt[0] == 'rec':
                                 last = bt[1].split('::')[-1]
-                                if sanitize(last) == nm[len('__base_'):] or last.split('<')[0] == norm_name(step['name']).split('::')[-1].split('<')[0]:
+                                simple = bt[1].split('<')[0].split('::')[-1]      # class name without namespace and arguments
+                                if sanitize(last) == nm[len('__base_'):] or simple == norm_name(step['name']).split('<')[0].split('::')[-1]:
                                     cands.append('__base_' + sanitize(last))
                         if len(set(cands)) == 1:
                             nm = cands[0]
-                if is_ptr:
+                        elif os.environ.get('VF_DEBUG'):
+                            print('DEBUG base path', cur, step.get('name'), cands, [b['type'] for b in drec0.get('bases', [])])
+                drec_e = (u.records.get(cur[1]) or u.records.get(u._fuzzy_record(cur[1]) or '')) if cur[0] == 'rec' else None
+                empty_base = None
+                if drec_e is not None:
+                    for b in drec_e.get('bases', []):
+                        bt = u.resolve(parse_type(b['type'].get('desugaredQualType') or b['type']['qualType']))
+                        if bt[0] == 'rec' and '__base_' + sanitize(bt[1].split('::')[-1]) == nm and (u.records.get(bt[1]) or {}).get('definitionData', {}).get('isEmpty'):
+                            empty_base = bt
+                if empty_base is not None:
+                    # empty base: no member in the C struct, the base subobject is the same address seen as the base type
+                    if is_ptr:
+                        x = '((%s)(%s))' % (u.ctype(('ptr', empty_base)), x)
+                    else:
+                        x = '(*(%s)%s)' % (u.ctype(('ptr', empty_base)), addr_of(x))
+                elif is_ptr:
                     x = '(&(%s)->%s)' % (x, nm)
                 else:
                     x = '(%s).%s' % (x, nm)
